@@ -202,6 +202,8 @@ impl Serialize for Src<'_> {
                         return Err(std::io::Error::other("writer makes no progress").into());
                     }
                 }
+                // a serialiser may flush between its writes: the armor text must not depend on it
+                w.flush()?;
             } else {
                 w.write_all(&self.data[pos..pos + n])?;
             }
